@@ -238,6 +238,20 @@ def run_random(shard, ctx):
                 a = rng.randint(1, max(1, total))
                 b = a
             asm_ = rng.choice(family)
+            if _ == 5 and i % 3 == 1:
+                # a scaffold added AFTER lookups have been made on the assembly is looked up like any other
+                late = gen_random_rows(rng, maxrows=6)
+                try:
+                    asm_.add_scaffold(build_scaffold([f"late{i}", late]))
+                    lb = [0]
+                    for r in late:
+                        lb.append(lb[-1] + (r[3] - r[2] + 1 if r[0] == "F" else r[1]))
+                    for _k in range(6):
+                        la = max(1, rng.choice(lb) + rng.choice([-1, 0, 1]))
+                        _query(asm_, f"late{i}", la, max(la, rng.choice(lb) + rng.choice([0, 1, 5])), 1)
+                    ctx.count("class:scaffold-added-after-lookups")
+                except ValueError:
+                    ctx.count("note:late-add-refused")
             r1 = _query(asm_, "s", a, b, rng.choice([1, -1]))
             if r1 is not None and r1.rows and rng.random() < 0.25:
                 # callers edit the result they were given (discards, trims); asking again must answer afresh
@@ -299,6 +313,7 @@ def gates(c, tier):
         "class:scaffold-longer-than-2^32": 50,
         "class:lookup-after-refused-duplicate-add": 50,
         "class:assemblies-derived-from-one-another": 50,
+        "class:scaffold-added-after-lookups": 500,
         "class:same-query-after-editing-the-first-answer": 1000,
         "monitor_evals:find_overlaps": 1000,
     }
